@@ -162,7 +162,8 @@ def _execute(sc, probe) -> Outcome:
                 if out["exc"] is not None:
                     s0, s1 = out["seq_window"]
                     closers = sorted({op["actor"] for op in run.world.trace if op["kind"] == "close" and not op.get("already") and s0 <= op["seq"] <= s1 + 1
-                                      and op["actor"] not in (i, None)})
+                                      and op["actor"] not in (i, None)}
+                                     | {tid for seq_, tid, pid in run.close_intents if s0 <= seq_ <= s1 + 1 and tid not in (i, None)})
                     vio.append(V(P, "request-failed", f"{what}: {label}: thread {i} request {tok} failed with {out['exc']['type']}: {out['exc']['msg']} "
                                  f"(raised in {out['exc'].get('inner')}) although the server is well-behaved"
                                  + (f"; thread(s) {closers} closed a connection while this request was in flight" if closers else ""),
